@@ -180,6 +180,7 @@ def correspondence(ctx):
             if world0 is None:
                 world0 = WL.impl_tables(g) if g._networks else None
             req = exp["required"]
+            picks_by = {}
             for k, role in enumerate(["Attacker", "Defender", "Benign"][:max(1, min(req, 3))] if req > 1 else [rng.choice(["Attacker", "Defender"])]):
                 a = ("10.3.0.%d" % (k + 1), 500 + k)
                 S.connect(a)
@@ -188,6 +189,7 @@ def correspondence(ctx):
                     S.send(a, nsgenv.join("n%d" % k, role), {"kind": "join", "name": "n%d" % k, "role": role if exp["configured"].get(role, True) else "unconfigured"})
                     S.settle()
                 picks = [WL.ip2n(p) for p in rec.picks]
+                picks_by[a] = picks
                 stats["joins"] += 1
                 outs = [json.loads(c[:-3].decode()) for c in S.d.new_output(a)]
                 sec = cfg["coordinator"]["agents"].get(role) if role != "Benign" else None
@@ -272,7 +274,7 @@ def correspondence(ctx):
                           "data": {WL.ip2n(h): {(o, i, 0, "") for o, i in v} for h, v in listed(part, "known_data", {}).items()}}
                     vimpl = WL.impl_view(g._agent_states[a]) if len(g._agent_trajectories[a]["trajectory"]["actions"]) == 0 else None
                     if vimpl is not None:
-                        case_lines.append((f"(run {WL.world_term(T, I)} [] [OInit 0 {WR.start_pos_term(sp, I)} [{'; '.join(f'{p}%N' for p in self_picks(S, a, picks))}] {WL.view_term(vimpl, I)}])",
+                        case_lines.append((f"(run {WL.world_term(T, I)} [] [OInit 0 {WR.start_pos_term(sp, I)} [{'; '.join(f'{p}%N' for p in self_picks(S, a, picks_by))}] {WL.view_term(vimpl, I)}])",
                                            json.dumps({"role": role, "start_position": part})))
                         if len(samples) < 2:
                             samples.append({"role": role, "start_position": part, "initial_view_controlled": sorted(ctrl)})
@@ -324,8 +326,9 @@ def correspondence(ctx):
     ]
 
 
-def self_picks(S, a, picks):
-    return picks
+def self_picks(S, a, picks_by):
+    """The random.choice picks recorded while THIS agent's join was processed."""
+    return picks_by.get(a, [])
 
 
 def probe_shipped(ctx, nsgenv, CR):
